@@ -25,6 +25,16 @@ def _len(eng, args, kwargs, node):
         return concretize(Sym(v.n, INT))
     if is_sym(v):
         if v.t == STR:
+            if getattr(v, 'parts', None):
+                # length of a concatenation = sum of the lengths of its parts (keeps length reasoning linear)
+                tot = 0
+                zs_ = []
+                for p in v.parts:
+                    if isinstance(p, str):
+                        tot += len(p)
+                    else:
+                        zs_.append(z3.Length(p.z))
+                return Sym(z3.IntVal(tot) + z3.Sum(zs_) if zs_ else z3.IntVal(tot), INT)
             return Sym(z3.Length(v.z), INT)
         raise PyRaise('TypeError', 'len() of %s' % v.t, node=node)
     if isinstance(v, Obj):
@@ -304,6 +314,9 @@ def _isinstance(eng, args, kwargs, node):
                 elif v.cls == x.name:
                     return True
             if isinstance(v, PyRaise) and exc_isa(v.etype, x.name, eng.extra_exc):
+                return True
+        elif type(x).__name__ == 'NamedTupleType':
+            if isinstance(v, Obj) and v.cls == x.name:
                 return True
         elif isinstance(x, str):
             if isinstance(v, Obj) and v.cls == x:
